@@ -217,6 +217,51 @@ fn board_chunk(rng: &mut Rng, events: usize, out: &mut dyn Write) {
                     observe(&b, &mut ev);
                 } else {
                     let pj = proj(&b);
+                    // one edit in four concerns a knight's check on the side to move: put an enemy knight on a square
+                    // from which it attacks that king, or take a checking knight away
+                    if rng.chance(1, 4) {
+                        let stm_c = b.side_to_move();
+                        let ksq = b.king_square(stm_c);
+                        let from: Vec<Square> = get_knight_moves(ksq).collect();
+                        let s = from[rng.below(from.len())];
+                        let there = pj.sq[s.to_index()];
+                        let enemy_knight = if stm_c == Color::White { b'n' } else { b'N' };
+                        if there != b'K' && there != b'k' {
+                            let (man, res) = if there == enemy_knight {
+                                (b'.', b.clear_square(s))
+                            } else {
+                                (enemy_knight, b.set_piece(Piece::Knight, !stm_c, s))
+                            };
+                            ev.insert("event".into(), json!("Edit"));
+                            ev.insert("esq".into(), json!(s.to_index()));
+                            ev.insert("man".into(), json!((man as char).to_string()));
+                            ev.insert("ok".into(), json!(res.is_some()));
+                            if let Some(nb) = res {
+                                b = nb;
+                            }
+                            observe(&b, &mut ev);
+                            writeln!(out, "{}", Value::Object(ev)).unwrap();
+                            n += 1;
+                            let mut ev = Map::new();
+                            ev.insert("event".into(), json!("Null"));
+                            let before = b;
+                            match b.null_move() {
+                                None => {
+                                    ev.insert("ok".into(), json!(false));
+                                    observe(&b, &mut ev);
+                                }
+                                Some(nb) => {
+                                    ev.insert("ok".into(), json!(true));
+                                    ev.insert("src_unchanged".into(), json!(before == b));
+                                    b = nb;
+                                    observe(&b, &mut ev);
+                                }
+                            }
+                            writeln!(out, "{}", Value::Object(ev)).unwrap();
+                            n += 1;
+                        }
+                        continue;
+                    }
                     let occupied: Vec<usize> = (0..64).filter(|i| pj.sq[*i] != b'.' && pj.sq[*i] != b'K' && pj.sq[*i] != b'k').collect();
                     let targeted = !occupied.is_empty() && rng.chance(1, 2);
                     let i = if targeted { occupied[rng.below(occupied.len())] } else { rng.below(64) };
@@ -343,7 +388,9 @@ fn observe_game(g: &Game, ev: &mut Map<String, Value>) {
     ev.insert("can".into(), json!(g.can_declare_draw()));
 }
 
-const GAME_FENS: [&str; 18] = [
+const GAME_FENS: [&str; 20] = [
+    "rn2k1nr/8/8/8/8/8/8/RN2K1NR w KQkq - 0 1",
+    "r3k1nr/8/8/8/8/8/8/R3K1NR w KQkq - 0 1",
     "8/P3k3/8/8/8/8/8/4K3 w - - 0 1",
     "4k3/8/8/8/8/8/p3K3/8 b - - 0 1",
     "8/8/8/8/8/5k2/8/5KQ1 w - - 0 1",
@@ -392,6 +439,44 @@ fn game_chunk(rng: &mut Rng, events: usize, out: &mut dyn Write, claims: bool) {
         let len = if shuffle { 130 + rng.below(span) } else { 20 + rng.below(120) };
         let mut history: Vec<ChessMove> = vec![];
         let mut plies = 0usize;
+        // scripted opening (sometimes): both sides give up the same castling rights by out-and-back moves, then both make an
+        // out-and-back move that keeps the remaining rights - the placement recurs with fewer rights than at the start
+        let mut script: Vec<ChessMove> = vec![];
+        let both_have_rights = {
+            let b0 = g.current_position();
+            b0.castle_rights(Color::White) != CastleRights::NoRights && b0.castle_rights(Color::Black) != CastleRights::NoRights
+        };
+        if shuffle && (both_have_rights || rng.chance(1, 3)) {
+            let b0 = g.current_position();
+            let mir = |m: ChessMove| ChessMove::new(Square::new(m.get_source().to_index() as u8 ^ 56), Square::new(m.get_dest().to_index() as u8 ^ 56), None);
+            let inv = |m: ChessMove| ChessMove::new(m.get_dest(), m.get_source(), None);
+            let ms0: Vec<ChessMove> = MoveGen::new_legal(&b0).collect();
+            let losing: Vec<ChessMove> = ms0.iter().cloned().filter(|m| reversible(&b0, *m) && !keeps_rights(&b0, *m)).collect();
+            let keeping: Vec<ChessMove> = ms0.iter().cloned().filter(|m| reversible(&b0, *m) && keeps_rights(&b0, *m) && b0.piece_on(m.get_source()) == Some(Piece::Knight)).collect();
+            if !losing.is_empty() && !keeping.is_empty() {
+                let a = losing[rng.below(losing.len())];
+                let k = keeping[rng.below(keeping.len())];
+                let mut cand = vec![a, mir(a), inv(a), inv(mir(a))];
+                for _ in 0..2 {
+                    cand.extend_from_slice(&[k, mir(k), inv(k), inv(mir(k))]);
+                }
+                // keep the script only if every move of it is legal when its turn comes
+                let mut t = b0;
+                let mut ok = true;
+                for m in cand.iter() {
+                    if t.legal(*m) {
+                        t = t.make_move_new(*m);
+                    } else {
+                        ok = false;
+                        break;
+                    }
+                }
+                if ok {
+                    script = cand;
+                    script.reverse();
+                }
+            }
+        }
         // a marathon game only asks whether a draw could be claimed, it never claims (300+ quiet half-moves)
         let marathon = shuffle && rng.chance(1, 5);
         let len = if marathon { 300 + rng.below(40) } else { len };
@@ -405,7 +490,7 @@ fn game_chunk(rng: &mut Rng, events: usize, out: &mut dyn Write, claims: bool) {
             let roll = rng.below(100);
             let ms: Vec<ChessMove> = MoveGen::new_legal(&b).collect();
             let (p_move, p_illegal, p_offer, p_accept, p_resign) = if shuffle { (90, 92, 93, 94, 94) } else { (62, 72, 82, 90, 92) };
-            if roll < p_move && !ms.is_empty() {
+            if (roll < p_move || !script.is_empty()) && !ms.is_empty() {
                 let rev: Vec<ChessMove> = ms.iter().cloned().filter(|m| reversible(&b, *m)).collect();
                 let quiet: Vec<ChessMove> = rev.iter().cloned().filter(|m| keeps_rights(&b, *m)).collect();
                 // once a hundred quiet half-moves are on the clock, end the game by mate or stalemate if that is possible
@@ -420,7 +505,10 @@ fn game_chunk(rng: &mut Rng, events: usize, out: &mut dyn Write, claims: bool) {
                 } else {
                     vec![]
                 };
-                let m = if let Some(f) = finisher {
+                let scripted = script.pop().filter(|m| ms.contains(m));
+                let m = if let Some(s) = scripted {
+                    s
+                } else if let Some(f) = finisher {
                     f
                 } else if !pawnrun.is_empty() && rng.chance(3, 4) {
                     pawnrun[rng.below(pawnrun.len())]
@@ -436,7 +524,7 @@ fn game_chunk(rng: &mut Rng, events: usize, out: &mut dyn Write, claims: bool) {
                     };
                     if let Some(x) = back {
                         x
-                    } else if plies == rights_ply && rev.len() > quiet.len() {
+                    } else if (plies == rights_ply || plies == rights_ply + 1) && rev.len() > quiet.len() {
                         let loses: Vec<ChessMove> = rev.iter().cloned().filter(|m| !quiet.contains(m)).collect();
                         loses[rng.below(loses.len())]
                     } else if !quiet.is_empty() && rng.chance(97, 100) {
@@ -903,6 +991,15 @@ fn text_chunk(rng: &mut Rng, events: usize, out: &mut dyn Write) {
                         n += 1;
                     }
                 }
+                for _ in 0..4 {
+                    // a few tokens of noise (often non-ASCII) followed by the en-passant mark
+                    let k = 1 + rng.below(3);
+                    let mut text: String = (0..k).map(|_| NOISE[rng.below(NOISE.len())]).collect::<Vec<_>>().concat();
+                    text.push_str(" e.p.");
+                    let (st, mv) = san_ret(&b, &text);
+                    writeln!(out, "{}", json!({"event": "San", "text": text, "st": st, "mv": mv})).unwrap();
+                    n += 1;
+                }
                 for _ in 0..6 {
                     let text = random_text(rng);
                     let (st, mv) = san_ret(&b, &text);
@@ -1050,7 +1147,7 @@ fn validate_chunk(rng: &mut Rng, events: usize, out: &mut dyn Write, progress: &
             // mutations (several may apply); about one in four inputs stays a valid position
             let nm = [0, 0, 1, 1, 1, 2, 3, 5][rng.below(8)];
             for _ in 0..nm {
-                match rng.below(13) {
+                match rng.below(14) {
                     0 => {
                         for i in 0..64 {
                             if sq[i] == b'K' || (sq[i] == b'k' && rng.chance(1, 2)) {
@@ -1084,6 +1181,14 @@ fn validate_chunk(rng: &mut Rng, events: usize, out: &mut dyn Write, progress: &
                         if sq[i] != b'K' && sq[i] != b'k' {
                             sq[i] = letters[rng.below(12)];
                         }
+                    }
+                    12 => {
+                        // the en-passant file points at a pawn of the side to move that has a friend beside it
+                        let (rank, me) = if stm == b'w' { (4usize, b'P') } else { (3usize, b'p') };
+                        let f = rng.below(7);
+                        sq[rank * 8 + f] = me;
+                        sq[rank * 8 + f + 1] = me;
+                        epfile = (f + rng.below(2)) as i64;
                     }
                     11 => {
                         // castling confusion: the ENEMY king on a side's king home square, that side's rooks at home, its own king elsewhere
@@ -1530,7 +1635,7 @@ fn bits_chunk(rng: &mut Rng, events: usize, out: &mut dyn Write) {
 fn mine_chunk(rng: &mut Rng, events: usize, out: &mut dyn Write) {
     let mut n = 0;
     let mut tries: u64 = 0;
-    let mut quota = [0usize; 13];
+    let mut quota = [0usize; 14];
     let kinds_w = b"PPPNBRQ";
     let kinds_b = b"pppnbrq";
     while n < events && tries < 40_000_000 {
@@ -1587,6 +1692,31 @@ fn mine_chunk(rng: &mut Rng, events: usize, out: &mut dyn Write) {
                 sq[behind2] = b'.';
             }
         }
+        // template (one try in eight): an enemy rook or queen behind the just-pushed pawn on its file, the king of the side
+        // to move further down that file: the en-passant capture lands on the file and keeps it closed
+        if rng.chance(1, 8) {
+            let white_to_move = rng.chance(1, 2);
+            stm = if white_to_move { b'w' } else { b'b' };
+            let f = 1 + rng.below(6);
+            let (own_k, own_p, en_p, en_r) = if white_to_move { (b'K', b'P', b'p', [b'r', b'q'][rng.below(2)]) } else { (b'k', b'p', b'P', [b'R', b'Q'][rng.below(2)]) };
+            for i in 0..64 {
+                if sq[i] == own_k || i % 8 == f {
+                    sq[i] = b'.';
+                }
+            }
+            let cf = if rng.chance(1, 2) { f + 1 } else { f - 1 };
+            if white_to_move {
+                sq[4 * 8 + f] = en_p;      // pushed pawn on its fourth rank (rank 5)
+                sq[7 * 8 + f] = en_r;      // heavy piece behind it
+                sq[4 * 8 + cf] = own_p;
+                sq[(rng.below(3)) * 8 + f] = own_k;
+            } else {
+                sq[3 * 8 + f] = en_p;
+                sq[f] = en_r;
+                sq[3 * 8 + cf] = own_p;
+                sq[(5 + rng.below(3)) * 8 + f] = own_k;
+            }
+        }
         // en-passant state where a double push is plausible: pushed pawn on its fourth rank, the two squares behind it
         // empty, an enemy pawn beside it
         let mut epfile: i64 = -1;
@@ -1627,6 +1757,39 @@ fn mine_chunk(rng: &mut Rng, events: usize, out: &mut dyn Write) {
             Ok(b) => b,
             Err(_) => continue,
         };
+        // one try in four: look for a move INTO a double check by sliders that also leaves an enemy man pinned
+        if tries % 4 == 0 && quota[13] < (events / 10).max(1) {
+            let ms: Vec<ChessMove> = MoveGen::new_legal(&b).collect();
+            let hit = ms.iter().cloned().find(|m| {
+                let nb = b.make_move_new(*m);
+                nb.checkers().popcnt() >= 2 && (*nb.pinned() & *nb.color_combined(nb.side_to_move())) != EMPTY
+            });
+            if let Some(m) = hit {
+                quota[13] += 1;
+                let p = proj(&b);
+                let text = format!("{} 0 1", Pos { sq: p.sq, stm: p.stm, cr: p.cr, ep: if epfile >= 0 { (if stm == b'w' { 40 } else { 16 }) + epfile as i8 } else { -1 } }.describe());
+                let mut ev = Map::new();
+                ev.insert("event".into(), json!("Reset"));
+                ev.insert("text".into(), json!(text));
+                ev.insert("mined".into(), json!(true));
+                observe(&b, &mut ev);
+                writeln!(out, "{}", Value::Object(ev)).unwrap();
+                let src = b;
+                let n1 = src.make_move_new(m);
+                let mut n2 = b;
+                src.make_move(m, &mut n2);
+                let mut ev = Map::new();
+                ev.insert("event".into(), json!("Move"));
+                ev.insert("m".into(), mv_json(m));
+                ev.insert("eq_other_entry".into(), json!(n1 == n2));
+                ev.insert("src_unchanged".into(), json!(src == b));
+                // the in-place result is the one observed (the other entry point is compared through eq_other_entry)
+                observe(&n2, &mut ev);
+                writeln!(out, "{}", Value::Object(ev)).unwrap();
+                n += 2;
+                continue;
+            }
+        }
         let nmoves = MoveGen::new_legal(&b).len();
         let double_with_pin = b.checkers().popcnt() >= 2 && (*b.pinned() & *b.color_combined(b.side_to_move())) != EMPTY;
         if nmoves > 2 && !double_with_pin {
